@@ -111,7 +111,7 @@ CLAIMED = {
 NA_REASON = 'check built (qv/checks) but not yet silent on the repaired tree in this session: triage in progress; not claimed until it is'
 
 ENABLED = {'C%02d' % i for i in range(1, 21)}
-QUICK_ONLY = {'C01', 'C02', 'C06', 'C07', 'C12', 'C13', 'C20'}   # thorough tiers are added once seen to exit 0 on the repaired tree
+QUICK_ONLY = {'C01', 'C02', 'C06', 'C07', 'C12', 'C13'}   # thorough tiers are added once seen to exit 0 on the repaired tree
 
 def main():
     checks = []
